@@ -197,6 +197,8 @@ class Ceremony:
         change = ch.index('chg', 2)
         index = ch.pick('idx', [0, 1, 2, 5])
         cos = ch.index('cos', self.n) if (self.wt == 'legacy' and not self.single) else None
+        if cos is not None and self.focus == 'C10' and ch.coin('via_get_key', 0.4):
+            return self.agree_via_get_key(change, cos)
         w.op('agree', change=change, index=index, cosigner=cos)
         e = self.ref_key(change, index, cos or 0)
         got = []
@@ -218,6 +220,33 @@ class Ceremony:
             w.violation('parties_disagree_on_address', {'witness': self.wt, 'sort_keys': self.sort_keys},
                         'same path, different addresses: %s' % got)
         w.outcome('addresses', n=len(got), addr=got[0][1] if got else None)
+
+    def agree_via_get_key(self, change, cos):
+        """BIP45 wallets: every party is asked for the next key of cosigner branch `cos` (get_key / get_key_change with
+        an explicit cosigner_id); whatever index a party is at, the key must lie in the branch that was asked for and
+        carry the address the n account keys give for its path."""
+        w = self.w
+        w.op('agree_get_key', change=change, cosigner=cos)
+        for p, party in enumerate(self.parties):
+            ok, k = self.call('get_key', lambda: party['w'].get_key(cosigner_id=cos, change=change))
+            if not ok:
+                continue
+            parts = k.path.split('/')
+            try:
+                branch, chg, index = int(parts[-3]), int(parts[-2]), int(parts[-1])
+            except (ValueError, IndexError):
+                w.violation('wrong_branch', {'witness': self.wt, 'api': 'get_key'}, 'party %d: path %s' % (p, k.path))
+                continue
+            if branch != cos or chg != change:
+                w.violation('wrong_branch', {'witness': self.wt, 'api': 'get_key'},
+                            'party %d (own cosigner index %s) asked for cosigner branch %d change %d, got %s' %
+                            (p, party.get('own'), cos, change, k.path))
+            e = self.ref_key(chg, index, branch)
+            if k.address != e['address']:
+                w.violation('address_differs_from_reference', {'witness': self.wt, 'sort_keys': self.sort_keys},
+                            'party %d get_key(cosigner_id=%d, change=%d) -> %s %s; the account keys give %s' %
+                            (p, cos, change, k.path, k.address, e['address']))
+        w.probe('agree_via_get_key')
 
     def op_fund(self):
         ch, w = self.ch, self.w
